@@ -201,8 +201,9 @@ func genStepParams(sh stepShape) *stepParams {
 }
 
 func newStepWorld(sh stepShape) *stepWorld {
-	if verifnd.Tier() == 1 && !sh.noFree {
-		// thorough tier: every presence bit of the pre-state is a free choice (all 2^8 combinations)
+	if verifnd.Tier() == 1 && !sh.noFree && !sh.prior {
+		// thorough tier: every presence bit of the pre-state is a free choice (all 2^8 combinations); the worlds
+		// with prior-session histories keep the presets (both dimensions at once double an hour-long run)
 		sh.freeBits = true
 	}
 	par := sh.par
